@@ -618,8 +618,8 @@ def setpoints(net):
                 exp_n = float(net.std_types["pump"][st].get_pressure(mdot / float(net.fluid.get_density(NORMAL_TEMPERATURE))))
                 obs = float(r.at[idx, "deltap_bar"])
                 explained = abs(obs - exp_n) <= 1e-8 * (1 + abs(exp_n))
-                out.append(("pump_lift_curve_at_normal_density", "pump", int(idx), obs, exp_n, 1e-8 * (1 + abs(exp_n)),
-                            {"mdot": mdot, "std_type": st}))
+                # (auxiliary value only: it classifies a mismatch of the clause below as the known density finding;
+                #  it is not a clause of its own, so the check stays valid once the pump uses the real density)
                 out.append(("pump_lift_curve", "pump", int(idx), obs, exp, 1e-7 * (1 + abs(exp)),
                             {"vdot": vdot, "t_from_k": float(net.junction.at[int(fj), "tfluid_k"]), "std_type": st,
                              "explained_by_normal_density": bool(explained)}))
